@@ -393,6 +393,13 @@ func SilenceKlog() {
 	fs.Set("stderrthreshold", "FATAL")
 }
 
+// SetKlogVerbosity sets the repository's process-wide klog -v level (0 is the default); output stays discarded.
+func SetKlogVerbosity(n int) {
+	fs := flag.NewFlagSet("klog", flag.ContinueOnError)
+	klog.InitFlags(fs)
+	fs.Set("v", fmt.Sprint(n))
+}
+
 // enumProp is a finite, completely enumerated set of cases (fault matrices). Every tier runs all of
 // them; in the thorough tier the cases are split over the shards.
 type enumProp[C any] struct {
